@@ -117,6 +117,31 @@ def specMatch (c : Ctx) : Datum → Datum → Option Binds
     | _ => none
   | d, e => if cellEq d e then some [] else none
 
+/-- The class of uses behind known finding `C17-empty-ellipsis-before-tail`: walking pattern `P`
+    against form `E` the way `specMatch` does, some `Pe <ellipsis> Pm+1 … Pn` with a non-empty fixed
+    tail (`n > m`) meets exactly as many items as the tail needs, so R7RS gives `Pe` zero items.
+    The pinned matcher always gives `Pe` the first item and then declines. Decidable guard of the
+    `_partial` theorems and predicate of the finding. -/
+def zeroRepTail (c : Ctx) : Datum → Datum → Bool
+  | .pair p (.pair q rest), e =>
+    if c.isEllD q then
+      let m := spineLen rest
+      let n := spineLen e
+      if n < m then false
+      else
+        (decide (1 ≤ m) && n == m)
+          || (takeSpine (n - m) e).any (fun x => zeroRepTail c p x)
+          || zeroRepTail c rest (dropSpine (n - m) e)
+    else
+      match e with
+      | .pair e1 er => zeroRepTail c p e1 || zeroRepTail c (.pair q rest) er
+      | _ => false
+  | .pair p rest, e =>
+    match e with
+    | .pair e1 er => zeroRepTail c p e1 || zeroRepTail c rest er
+    | _ => false
+  | _, _ => false
+
 /-! ## Template instantiation -/
 
 inductive IRes (α : Type) where
@@ -263,6 +288,12 @@ def matchRule (c : Ctx) (r : Rule) (use : Datum) : Option Binds :=
   | .pair _ prest, .pair _ urest => specMatch c prest urest
   | _, _ => none
 
+/-- some rule of the transformer meets the `zeroRepTail` situation on this use -/
+def zeroRepTailRule (c : Ctx) (r : Rule) (use : Datum) : Bool :=
+  match r.pattern, use with
+  | .pair _ prest, .pair _ urest => zeroRepTail c prest urest
+  | _, _ => false
+
 inductive SRes where
   | ok (d : Datum)
   | noMatch
@@ -298,7 +329,7 @@ def parseDef (d : Datum) : Option Rules :=
   | [_, .sym _, sr] =>
     match sr with
     | .pair (.sym h) rest =>
-      if h != "syntax-rules".toList then none
+      if h != ['s','y','n','t','a','x','-','r','u','l','e','s'] then none
       else
         let (ell, rest) : Text × Datum := match rest with
           | .pair (.sym e) r => (e, r)
